@@ -194,6 +194,12 @@ ExtTerms ==
   \cup {Op2("hypot", a, b) : a \in {Num("3"), X, Num("0")}, b \in {Num("4"), Y, Num("0")}}
   \cup {Op1("is_finite", a) : a \in {X, Num("1"), Named("posinf"), Named("largest"), Op2("add", X, Y)}}
   \cup {Sel(Op1("is_finite", X), X, Y), Not(Op1("is_finite", X))}
+  \* comparisons and selects over every remaining real-valued kind (no semantics in FAIR: the rewrite must
+  \* terminate without raising)
+  \cup {Op2(k, Op2(b, X, Y), a) : k \in RelKinds, b \in {"atan2", "copysign", "hypot", "pow", "remainder", "floor_divide"}, a \in {X, Num("0")}}
+  \cup {Op2(k, a, Op1(u, X)) : k \in RelKinds, u \in {"round", "truncate", "floor", "ceil", "asin_acos_kernel", "exp2", "tan", "atan"}, a \in {Y, Num("1")}}
+  \cup {Sel(Op2("lt", Op2("copysign", X, Y), Num("0")), Op1("round", X), Op2("atan2", Y, X)), Op1("absolute", Op2("copysign", X, Y)),
+        Op1("negative", Op1("negative", Op1("truncate", X))), Op2("add", Op2("atan2", X, Y), Num("0"))}
 
 CRLeaves == RLeaves
 RECURSIVE RandC(_), RandXR(_)
